@@ -122,7 +122,11 @@ func aloneSource(src string, rs *refSource, net *refNet, ci int) (text string, i
 		keep = append(keep, strings.TrimSuffix(l, "\r"))
 	}
 	cp := rs.CPs[ci]
-	keep = append(keep, fmt.Sprintf("%%meta cpdef %s romcode: %s", cp.Name, cp.RomCode))
+	def := fmt.Sprintf("%%meta cpdef %s romcode: %s", cp.Name, cp.RomCode)
+	if cp.RomData != "" {
+		def += ", romdata: " + cp.RomData
+	}
+	keep = append(keep, def)
 	for port, ch := range net.InChan[ci] {
 		if ch < 0 {
 			continue
@@ -217,7 +221,7 @@ func evalCase(c Case, m mode) (out pbt.Outcome) {
 		rs.sectionFeatures(rs.Sections[name], feat)
 		if !live[name] {
 			lab["dead-section"] = true
-			if _, _, err := rs.compile(name, true); err != nil {
+			if _, _, err := rs.compile(name, "", true); err != nil {
 				if m.Fuzz {
 					return pbt.Outcome{Excluded: "reference-does-not-read"}
 				}
@@ -251,6 +255,11 @@ func evalCase(c Case, m mode) (out pbt.Outcome) {
 	if rejectable == "" && c.Cfg == cfgDefault && feat["mov-literal"] {
 		rejectable = "mov-literal-without-chooser"
 	}
+	// the ROM address of a data symbol is loaded by rset: it has to fit the register (code and data longer than
+	// 2^registersize cells on an 8 bit machine)
+	if rejectable == "" && feat["rom-address-wider-than-register"] {
+		rejectable = "rom-address-wider-than-register"
+	}
 	lab["cfg="+c.Cfg] = true
 	lab[fmt.Sprintf("rsize=%d", rs.Rsize)] = true
 	lab[fmt.Sprintf("cps=%d", len(rs.CPs))] = true
@@ -274,6 +283,7 @@ func evalCase(c Case, m mode) (out pbt.Outcome) {
 				lab["several-labels-on-one-instruction"] = true
 			}
 		}
+		shapeLabels(rs, net, lab)
 		for _, ch := range net.Chans {
 			if ch.Src.CP >= 0 && ch.Dst.CP >= 0 {
 				lab["bond:cp-cp"] = true
@@ -298,6 +308,12 @@ func evalCase(c Case, m mode) (out pbt.Outcome) {
 	}
 	if labelLeak {
 		lab["label-leak-shape"] = true
+	}
+	if feat["db:number-without-byte-size"] && !m.Fuzz {
+		// docinstructions.md: every expression of `db` is one byte (`examplevar db 1, 2, 3`). The assembler takes the
+		// width from the notation: a number written without a size (plain decimal, 0d, 0u) becomes 8 cells, 0x1234 two.
+		// Recorded as a finding candidate; the main campaign writes bytes as 0xH, 0xHH, 0b…, 0x<8>…, 0b<8>… only.
+		return pbt.Outcome{Excluded: "db:number-without-byte-size"}
 	}
 	switch {
 	case labelLeak && !m.LabelLeak && !m.Fuzz:
@@ -361,6 +377,9 @@ func evalOnce(c Case, m mode, rs *refSource, net *refNet, lab map[string]bool, r
 		return pbt.Outcome{Fail: pbt.Failf("shape", "machine has %d inputs, %d outputs, %d processors; the source declares %d, %d, %d\n--- source ---\n%s",
 			bm.Inputs, bm.Outputs, len(bm.Processors), net.NIn, net.NOut, len(rs.CPs), c.Src)}
 	}
+	if why := romGuard(bm, rs, net); why != "" {
+		return pbt.Outcome{Fail: pbt.Failf("rom-address-outside-data", "%s\n--- source ---\n%s", why, c.Src)}
+	}
 	env := gen.Env{In: c.In, InGap: c.InGap, OutStall: c.OutStall}
 	sim, _, serr := simulate(bm, env, c.Ticks)
 	if serr != nil {
@@ -372,6 +391,15 @@ func evalOnce(c Case, m mode, rs *refSource, net *refNet, lab map[string]bool, r
 	}
 	if ref.Stats.FellOff {
 		return pbt.Outcome{Excluded: "falls-off-the-end"}
+	}
+	if ref.Stats.RomOutside {
+		if m.Fuzz {
+			return pbt.Outcome{Excluded: "rom-read-outside-data"}
+		}
+		return pbt.Outcome{Fail: pbt.Failf("harness:rom-read-outside-data", "a generated program reads a ROM cell that is not a data cell\n--- source ---\n%s", c.Src)}
+	}
+	if ref.Stats.RomReads > 0 {
+		lab["rom-read-executed"] = true
 	}
 	for k := range ref.Stats.Lits {
 		lab["lit:"+k] = true
@@ -465,6 +493,144 @@ func evalOnce(c Case, m mode, rs *refSource, net *refNet, lab map[string]bool, r
 	}
 	nt := ref.Stats.BackTaken >= 1 && ref.Stats.FwdTaken >= 1 && ref.Stats.Pseudo >= 1 && maxCmp >= minCompared
 	return pbt.Outcome{NonTrivial: nt}
+}
+
+// cpRank: the assembler numbers the processors in the byte order of their names.
+func cpRank(rs *refSource) []int {
+	rank := make([]int, len(rs.CPs))
+	for i, a := range rs.CPs {
+		for _, b := range rs.CPs {
+			if b.Name < a.Name {
+				rank[i]++
+			}
+		}
+	}
+	return rank
+}
+
+// shapeLabels classifies the structure of the source: how CPs share text and data sections, and how macros
+// that jump to a label of the section using them are spread over the sections.
+func shapeLabels(rs *refSource, net *refNet, lab map[string]bool) {
+	usesRom := func(p *refProg) bool {
+		for _, in := range p.Ins {
+			if in.RomSym != "" {
+				return true
+			}
+		}
+		return false
+	}
+	for i, a := range rs.CPs {
+		if a.RomData != "" {
+			lab["romdata"] = true
+			if !usesRom(net.Progs[i]) {
+				lab["romdata-unused-by-code"] = true
+			}
+		}
+		for j := i + 1; j < len(rs.CPs); j++ {
+			b := rs.CPs[j]
+			if a.RomData == "" || b.RomData == "" || !usesRom(net.Progs[i]) {
+				continue
+			}
+			switch {
+			case a.RomCode == b.RomCode && a.RomData == b.RomData:
+				lab["shared-code-shared-data"] = true
+			case a.RomCode != b.RomCode && a.RomData == b.RomData:
+				lab["different-code-shared-data"] = true
+			case a.RomCode != b.RomCode:
+				lab["different-code-different-data"] = true
+			default:
+				lab["shared-code-different-data"] = true
+				da, db := rs.Datas[a.RomData], rs.Datas[b.RomData]
+				for _, in := range net.Progs[i].Ins {
+					if in.RomSym == "" {
+						continue
+					}
+					va, vb := da.lookup(in.RomSym), db.lookup(in.RomSym)
+					if va != nil && vb != nil && va.Off != vb.Off {
+						lab["shared-code-different-data-layout"] = true
+					}
+					if va != nil && vb != nil && fmt.Sprint(va.Bytes) != fmt.Sprint(vb.Bytes) {
+						lab["shared-code-different-data-values"] = true
+					}
+				}
+			}
+		}
+	}
+	// macro lines that jump to a label of the using section: per source line of the jump, the instruction index
+	// of the label in every section a CP runs
+	targets := map[int]map[string]int{}
+	for _, p := range net.Progs {
+		for line, t := range p.OuterJumps {
+			if targets[line] == nil {
+				targets[line] = map[string]int{}
+			}
+			targets[line][p.Section] = t
+		}
+	}
+	for _, bySec := range targets {
+		lab["macro-label-operand"] = true
+		if len(bySec) < 2 {
+			continue
+		}
+		lab["macro-label-operand-multi-section"] = true
+		first, differ := -1, false
+		for _, t := range bySec {
+			if first < 0 {
+				first = t
+			} else if t != first {
+				differ = true
+			}
+		}
+		if differ {
+			lab["macro-label-operand-multi-section-different-index"] = true
+		}
+	}
+}
+
+// romGuard keeps the simulator away from a ROM address outside the data: procbuilder's ro2rri indexes the data
+// cells without a range check and the panic of a processor goroutine would take the whole test process down.
+// For every `mov rX, rom:<symbol>` of the source (instruction k of its CP) the word k of the machine's program is
+// decoded; when it is an rset-like instruction its immediate must point at a data cell and leave the cells of
+// the symbol inside the data. Returns a description of the first address that does not.
+func romGuard(bm *bondmachine.Bondmachine, rs *refSource, net *refNet) string {
+	rank := cpRank(rs)
+	for ci, p := range net.Progs {
+		if p.Data == nil || rank[ci] >= len(bm.Processors) || bm.Processors[rank[ci]] >= len(bm.Domains) {
+			continue
+		}
+		d := bm.Domains[bm.Processors[rank[ci]]]
+		if len(d.Program.Slocs) != len(p.Ins) {
+			continue
+		}
+		dis, err := d.Disassembler()
+		if err != nil {
+			continue
+		}
+		lines := strings.Split(strings.TrimRight(dis, "\n"), "\n")
+		if len(lines) != len(p.Ins) {
+			continue
+		}
+		for k, in := range p.Ins {
+			if in.RomSym == "" {
+				continue
+			}
+			f := strings.Fields(lines[k])
+			if len(f) != 3 || !strings.HasPrefix(f[0], "rset") {
+				continue
+			}
+			var a uint64
+			if _, err := fmt.Sscanf(f[2], "%d", &a); err != nil {
+				continue
+			}
+			v := p.Data.lookup(in.RomSym)
+			code, cells := uint64(len(d.Program.Slocs)), uint64(len(d.Data.Vars))
+			if a < code || a+uint64(len(v.Bytes)) > code+cells {
+				return fmt.Sprintf("cp %s (processor %d): instruction %d `%s` comes from `mov/rset …, rom:%s` (source line %d); the ROM of the processor has %d instructions followed by %d data cells, the symbol has %d cells: the address is not that of a data symbol (the source puts %s at %d)",
+					rs.CPs[ci].Name, rank[ci], k, lines[k], in.RomSym, in.Line, code, cells, len(v.Bytes), in.RomSym, in.Imm)
+			}
+		}
+	}
+	return ""
 }
 
 func propMain(c Case) pbt.Outcome           { return evalCase(c, modeMain) }
